@@ -340,3 +340,29 @@ PROPS["C19"] = {
     "units": [dict(_LOOP_COMMON, name="control", files=["harness/gnet/vloop_world.go", "harness/gnet/c14_pick.go", "harness/gnet/c19_control.go"],
                    rewrites=dict(_LOOP_REWRITES, **{"gnet.go": _gnet_stop_rewrite}), cfg={"vcfg": {"nodes": 1}})],
 }
+
+PROPS["C13"] = {
+    "claimed": False,
+    "conc": True,
+    "engine": "symgo-conc",
+    "level": "model_checking",
+    "level_text": "Bounded model checking of the REAL Enqueue/Dequeue/Length/IsEmpty code (go/ssa, retry loops unrolled, interleaving symbolic): for each thread configuration one SMT formula covers every round-robin schedule with R rounds (context-switch points are bit-vector variables, i.e. all interleavings with at most R*T-1 context switches in that order, at the granularity of single atomic operations and plain shared accesses). Linearizability is checked observationally: some order of the operations consistent with real-time precedence and program order must replay on a sequential FIFO with the observed results; Length/IsEmpty are evaluated by the real code at quiescence.",
+    "level_note": "Bounds: T <= 4 threads, <= 6 operations, R = 3 rounds (thorough: R = 4 for three threads), retry loops unrolled U times with the unwinding obligation discharged by the solver (never assumed). Outside: more rounds/operations; ABA under manual memory reuse (nodes are never recycled; the encoder allocates a fresh object per &node{} exactly like the code). sync/atomic is sequentially consistent (Go memory model). Counterexample schedules are written to the replay file with the effective steps per segment.",
+    "design_ref": "DESIGN.md sections 2.3 and 5 (C13)",
+    "technique": "bounded model checking of go/ssa thread programs with symbolic round-robin schedules (Lazy-CSeq style) in z3 QF_BV",
+    "explanation": "Engine B: thread programs are generated from the go/ssa of pkg/queue by guarded symbolic execution; the schedule formula is regenerated from the current source on every run.",
+    "bounds": {"threads": "<= 4", "operations": "<= 6", "rounds": "3 (quick), 4 (thorough, 3 threads)", "unwind": "3..5, checked"},
+    "outside": ["more context switches than R*T-1", "more than 6 operations"],
+    "assumptions": ["sync/atomic operations are sequentially consistent single steps", "GC: nodes are never reused while referenced"],
+    "units": [
+        {"name": "queue", "pkgdir": "pkg/queue", "files": ["harness/queue/c13_queue.go"], "mode": "int",
+         "configs": [
+             {"name": "A_EE_DD", "threads": ["VT_A_P", "VT_A_C"], "rounds": 3, "unwind": 3},
+             {"name": "D_E_E_DD", "threads": ["VT_D_P1", "VT_D_P2", "VT_D_C"], "rounds": 3, "unwind": 3},
+             {"name": "C_EE_D_DD", "threads": ["VT_C_P", "VT_C_C1", "VT_C_C2"], "rounds": 3, "unwind": 4},
+             {"name": "B_EE_E_DDD", "threads": ["VT_B_P1", "VT_B_P2", "VT_B_C"], "rounds": 3, "unwind": 3, "tier": "thorough"},
+             {"name": "E_EE_E_DD_D", "threads": ["VT_E_P1", "VT_E_P2", "VT_E_C1", "VT_E_C2"], "rounds": 3, "unwind": 3, "tier": "thorough"},
+         ],
+         "extra_fns": ["VT_Quiescent"]},
+    ],
+}
